@@ -44,6 +44,43 @@ pub fn judge<E: ToCErr + std::fmt::Debug>(api: &'static str, case: &mut Case, wa
     }
 }
 
+/// header-only slice decoder against the header part of the first reference layer. `hdr_faults`: the faults such a
+/// decoder is concerned with (cut-short header, content rules) -- payload length fields are not its business.
+fn judge_header<E: ToCErr + std::fmt::Debug>(api: &'static str, case: &mut Case, want: &RefResult, got: Result<refdec::RLayer, String>, err: Option<&E>, lax_want: &RefResult) {
+    case.eval();
+    // reference: first layer as decoded when payload length fields are handled leniently (lax), so that only header faults stop it
+    let first = lax_want.layers.first();
+    match (err, first) {
+        (None, Some(w)) => match got {
+            Ok(g) => {
+                let mut w1 = w.clone();
+                w1.pay = conv::NOPAY;
+                w1.incomplete = false;
+                w1.fragmented = g.fragmented;
+                w1.pay_srcs = vec![];
+                for (sig, d) in conv::compare_layers(api, &[w1], &[g], false) {
+                    case.fail(sig, d);
+                }
+            }
+            Err(e) => case.fail(format!("result-not-observable:{}", api), format!("{}: {}", api, e)),
+        },
+        (None, None) => {
+            let _ = want;
+            if let Some(st) = &lax_want.stop {
+                case.fail(format!("accepts-faulty-input:{}:{:?}", api, st.kind), format!("{} returned Ok although the header has the fault(s) {:?}", api, st.faults));
+            }
+        }
+        (Some(e), Some(_)) => case.fail(format!("rejects-well-formed-input:{}:{}", api, e.cerr().class()), format!("{} returned {:?} but the header is well formed", api, e)),
+        (Some(e), None) => {
+            if let Some(st) = &lax_want.stop {
+                if let Err(why) = conv::explain(&e.cerr(), st, false) {
+                    case.fail(format!("error-names-no-real-fault:{}:{}:{:?}", api, e.cerr().class(), st.kind), format!("{}: {:?}: {}", api, e, why));
+                }
+            }
+        }
+    }
+}
+
 fn head(want: &RefResult, n: usize) -> RefResult {
     // reference restricted to the first `n` layers: a fault behind them does not concern a single-layer slicer
     let mut r = want.clone();
@@ -56,6 +93,8 @@ fn head(want: &RefResult, n: usize) -> RefResult {
 
 pub fn check_case(door: Door, b: &[u8], case: &mut Case) {
     let want = refdec::decode(door, b, false);
+    // lenient about payload length fields: what a header-only decoder sees
+    let lax = refdec::decode(door, b, true);
     case.outcome(format!("{}:{}", door_class(door), want.shape()));
     match &want.stop {
         Some(st) => case.reach(format!("stop:{:?}:{}", st.kind, st.faults.iter().map(refdec::fault_class).collect::<Vec<_>>().join("+"))),
@@ -73,6 +112,9 @@ pub fn check_case(door: Door, b: &[u8], case: &mut Case) {
             let r = Ethernet2Slice::from_slice_without_fcs(b);
             let w1 = head(&want, 1);
             judge("Ethernet2Slice::from_slice_without_fcs", case, &w1, r.as_ref().map_err(|_| String::new()).and_then(|e| conv::eth2_layer(b, e).map(|l| vec![l])), r.as_ref().err());
+            case.at("Ethernet2HeaderSlice::from_slice");
+            let r = Ethernet2HeaderSlice::from_slice(b);
+            judge_header("Ethernet2HeaderSlice::from_slice", case, &want, r.as_ref().map_err(|_| String::new()).and_then(|e| conv::eth2_header_layer(b, e)), r.as_ref().err(), &lax);
             // FCS variant: the last four bytes are the frame check sequence, not payload
             case.at("Ethernet2Slice::from_slice_with_crc32_fcs");
             let r = Ethernet2Slice::from_slice_with_crc32_fcs(b);
@@ -109,6 +151,9 @@ pub fn check_case(door: Door, b: &[u8], case: &mut Case) {
             let r = LinuxSllSlice::from_slice(b);
             let w1 = head(&want, 1);
             judge("LinuxSllSlice::from_slice", case, &w1, r.as_ref().map_err(|_| String::new()).and_then(|e| conv::sll_layer(b, e).map(|l| vec![l])), r.as_ref().err());
+            case.at("LinuxSllHeaderSlice::from_slice");
+            let r = LinuxSllHeaderSlice::from_slice(b);
+            judge_header("LinuxSllHeaderSlice::from_slice", case, &want, r.as_ref().map_err(|_| String::new()).and_then(|e| conv::sll_header_layer(b, e)), r.as_ref().err(), &lax);
         }
         Door::Ether(t) => {
             case.at("SlicedPacket::from_ether_type");
@@ -127,11 +172,17 @@ pub fn check_case(door: Door, b: &[u8], case: &mut Case) {
                     case.at("SingleVlanSlice::from_slice");
                     let r = SingleVlanSlice::from_slice(b);
                     judge("SingleVlanSlice::from_slice", case, &w1, r.as_ref().map_err(|_| String::new()).and_then(|e| conv::vlan_layer(b, e).map(|l| vec![l])), r.as_ref().err());
+                    case.at("SingleVlanHeaderSlice::from_slice");
+                    let r = SingleVlanHeaderSlice::from_slice(b);
+                    judge_header("SingleVlanHeaderSlice::from_slice", case, &want, r.as_ref().map_err(|_| String::new()).and_then(|e| conv::vlan_header_layer(b, e)), r.as_ref().err(), &lax);
                 }
                 0x88E5 => {
                     case.at("MacsecSlice::from_slice");
                     let r = MacsecSlice::from_slice(b);
                     judge("MacsecSlice::from_slice", case, &w1, r.as_ref().map_err(|_| String::new()).and_then(|e| conv::macsec_layer(b, e).map(|l| vec![l])), r.as_ref().err());
+                    case.at("MacsecHeaderSlice::from_slice");
+                    let r = MacsecHeaderSlice::from_slice(b);
+                    judge_header("MacsecHeaderSlice::from_slice", case, &want, r.as_ref().map_err(|_| String::new()).and_then(|e| conv::macsec_header_layer(b, e)), r.as_ref().err(), &lax);
                 }
                 0x0806 => {
                     case.at("ArpPacketSlice::from_slice");
@@ -176,7 +227,15 @@ pub fn check_case(door: Door, b: &[u8], case: &mut Case) {
                 }),
                 r.as_ref().err(),
             );
+            case.at("Ipv4HeaderSlice::from_slice");
+            let r = Ipv4HeaderSlice::from_slice(b);
+            let l4 = refdec::decode_ip_only(b, true, Some(4));
+            judge_header("Ipv4HeaderSlice::from_slice", case, &w4, r.as_ref().map_err(|_| String::new()).and_then(|e| conv::ipv4_header_layer(b, e)), r.as_ref().err(), &l4);
+            case.at("Ipv6HeaderSlice::from_slice");
+            let r = Ipv6HeaderSlice::from_slice(b);
+            let l6 = refdec::decode_ip_only(b, true, Some(6));
             let w6 = refdec::decode_ip_only(b, false, Some(6));
+            judge_header("Ipv6HeaderSlice::from_slice", case, &w6, r.as_ref().map_err(|_| String::new()).and_then(|e| conv::ipv6_header_layer(b, e)), r.as_ref().err(), &l6);
             case.at("Ipv6Slice::from_slice");
             let r = Ipv6Slice::from_slice(b);
             judge(
@@ -247,11 +306,17 @@ pub fn check_case(door: Door, b: &[u8], case: &mut Case) {
                 case.at("UdpSlice::from_slice");
                 let r = UdpSlice::from_slice(b);
                 judge("UdpSlice::from_slice", case, &want, r.as_ref().map_err(|_| String::new()).and_then(|e| conv::udp_layer(b, e).map(|l| vec![l])), r.as_ref().err());
+                case.at("UdpHeaderSlice::from_slice");
+                let r = UdpHeaderSlice::from_slice(b);
+                judge_header("UdpHeaderSlice::from_slice", case, &want, r.as_ref().map_err(|_| String::new()).and_then(|e| conv::udp_header_layer(b, e)), r.as_ref().err(), &lax);
             }
             6 => {
                 case.at("TcpSlice::from_slice");
                 let r = TcpSlice::from_slice(b);
                 judge("TcpSlice::from_slice", case, &want, r.as_ref().map_err(|_| String::new()).and_then(|e| conv::tcp_layer(b, e).map(|l| vec![l])), r.as_ref().err());
+                case.at("TcpHeaderSlice::from_slice");
+                let r = TcpHeaderSlice::from_slice(b);
+                judge_header("TcpHeaderSlice::from_slice", case, &want, r.as_ref().map_err(|_| String::new()).and_then(|e| conv::tcp_header_layer(b, e)), r.as_ref().err(), &lax);
             }
             1 => {
                 case.at("Icmpv4Slice::from_slice");
